@@ -521,16 +521,27 @@ func (ctx *RenderContext) callRangeFunction(args []interface{}) (interface{}, er
 		}
 	}
 
+	if step == 0 {
+		return nil, fmt.Errorf("step cannot be zero")
+	}
+
 	// Create the range
 	result := make([]interface{}, 0)
 
 	if step > 0 {
 		for i := start; i <= end; i += step {
 			result = append(result, int(i))
+			if i+step == i {
+				// beyond 2^53 adding the step changes nothing: stop instead of looping for ever
+				break
+			}
 		}
 	} else {
 		for i := start; i >= end; i += step {
 			result = append(result, int(i))
+			if i+step == i {
+				break
+			}
 		}
 	}
 
